@@ -17,8 +17,10 @@ static const Part kParts[] = {
 	{"C06", "map-stream", 10000, 400000},
 	{"C07", "map-damage", 64, 3200},
 	{"C08", "bmp-stream", 20000, 600000},
+	{"C08", "image-damage", 48, 1600},
 	{"C09", "tileset-stream", 12000, 400000},
 	{"C10", "prt-stream", 12000, 400000},
+	{"C10", "image-damage", 48, 1600},
 	{"C11", "image-damage", 96, 3200},
 	{"C12", "stream-actors", 60000, 3000000},
 	{"C13", "stream-actors", 40000, 2000000},
